@@ -42,6 +42,24 @@ def _ids_compared(f: Func) -> Set[str]:
     return out
 
 
+def _record_generators(ctx: Ctx, f: Func) -> list:
+    """generator methods of f's class that f iterates over (`for ... in self._x(...)`)"""
+    out = []
+    if not f.cls:
+        return out
+    try:
+        cls = ctx.prog.cls(f.cls, f.module)
+    except Exception:
+        return out
+    for lp in [n for n in walk(f.node) if isinstance(n, ast.For)]:
+        it = lp.iter
+        if isinstance(it, ast.Call) and isinstance(it.func, ast.Attribute) and norm(it.func.value) == "self":
+            m = ctx.prog.method(cls, it.func.attr)
+            if m is not None and any(isinstance(y, (ast.Yield, ast.YieldFrom)) for y in walk(m.node)):
+                out.append(m)
+    return out
+
+
 def r06_1(ctx: Ctx) -> None:
     for sec, (mod, quals) in SECTION_READERS.items():
         quals = quals if isinstance(quals, list) else [quals]
@@ -49,6 +67,8 @@ def r06_1(ctx: Ctx) -> None:
         ids: Set[str] = set()
         for f in funcs:
             ids |= _ids_compared(f)
+            for g_ in _record_generators(ctx, f):
+                ids |= _ids_compared(g_)  # `for id, size in self._records(fp):` - the generator reads the id and knows the end marker
         want = set(spec7z.GRAMMAR[sec])
         missing = sorted(want - ids)
         ctx.check(not missing, "R06.1", funcs[0], funcs[0].node, f"{sec}: handles ids {sorted(want)}",
@@ -63,6 +83,14 @@ def r06_1(ctx: Ctx) -> None:
     # FilesInfo: the dispatch chain ends in else: raise; DUMMY skips exactly `size` bytes; END breaks
     f = ctx.prog.func("archiveinfo", "FilesInfo._read")
     loops = [n for n in walk(f.node) if isinstance(n, ast.While)]
+    gen_sizes: Set[str] = set()
+    if not loops:
+        # the record loop written as a for statement over a generator of the class that reads the id and the size of each record
+        for lp_ in [n for n in walk(f.node) if isinstance(n, ast.For)]:
+            gs = [g_ for g_ in _record_generators(ctx, f) if isinstance(lp_.iter, ast.Call) and attr_tail(lp_.iter) == g_.name]
+            if gs and any(isinstance(x, ast.Call) and attr_tail(x) == "read_uint64" for x in walk(gs[0].node)) and isinstance(lp_.target, ast.Tuple) and len(lp_.target.elts) == 2:
+                loops = [lp_]
+                gen_sizes = {lp_.target.elts[1].id} if isinstance(lp_.target.elts[1], ast.Name) else set()
     ctx.need(len(loops) == 1, "FilesInfo._read property loop not recognised")
     chain = [n for n in walk(loops[0]) if isinstance(n, ast.If) and any(isinstance(x, ast.Attribute) and x.attr == "EMPTY_STREAM" for x in ast.walk(n.test))]
     ctx.need(len(chain) == 1, "FilesInfo._read dispatch chain not recognised")
@@ -74,6 +102,7 @@ def r06_1(ctx: Ctx) -> None:
               construct="FilesInfo dispatch else")
     dummy = [n for n in walk(loops[0]) if isinstance(n, ast.If) and any(isinstance(x, ast.Attribute) and x.attr == "DUMMY" for x in ast.walk(n.test))]
     size_vars = {n.targets[0].id for n in walk(loops[0]) if isinstance(n, ast.Assign) and isinstance(n.targets[0], ast.Name) and isinstance(n.value, ast.Call) and attr_tail(n.value) == "read_uint64"}
+    size_vars |= gen_sizes
     ok = bool(dummy) and any(isinstance(c, ast.Call) and attr_tail(c) == "seek" and len(c.args) == 2 and norm(c.args[0]) in size_vars for st in dummy[0].body for c in ast.walk(st)) \
         and any(isinstance(s, ast.Continue) for s in dummy[0].body)
     ctx.check(ok, "R06.1", f, dummy[0] if dummy else f.node, "kDummy skips exactly its size", "the kDummy padding record is not skipped by exactly its declared size", construct="FilesInfo DUMMY")
